@@ -337,11 +337,13 @@ struct Built {
 fn build_target() -> Result<Built, String> {
   let fuzz_dir = verif_root().join("fuzz");
   let out = Command::new("cargo")
-    .args(["+nightly", "fuzz", "build", "--fuzz-dir"])
+    // -O: no debug assertions (as in the harness build that decides the artifacts); overflow
+    // checks stay on, as in the harness
+    .args(["+nightly", "fuzz", "build", "-O", "--fuzz-dir"])
     .arg(&fuzz_dir)
     .arg("vfuzz")
     .env("CARGO_NET_OFFLINE", "true")
-    .env("RUSTFLAGS", "--cfg ast_grep_verif")
+    .env("RUSTFLAGS", "--cfg ast_grep_verif -C overflow-checks=yes")
     .current_dir(&fuzz_dir)
     .stdin(Stdio::null())
     .output()
